@@ -104,6 +104,7 @@ def build(gen_src, sidecars, annotate=None, report=None, user_side=None):
     for sc in sidecars:
         merge_into(ix, ed, sc, report)
     traitspec.apply(ix, ed, report)
+    report["alphabet"] = token_names(gen_src)
     if annotate is not None:
         annotate(ix, ed, report)
     text = ed.apply()
@@ -124,5 +125,6 @@ def build(gen_src, sidecars, annotate=None, report=None, user_side=None):
              text,
              "\n// ===== user side =====\n",
              cbs,
+             "".join(report.get("ext_specs", [])),
              "\n} // verus!\nfn main() {}\n"]
     return "".join(parts)
